@@ -1,5 +1,7 @@
 package main
 
+import "strings"
+
 func init() {
 	register(&PropertyDef{
 		ID: "C02",
@@ -137,6 +139,23 @@ func subRules(fn func(*Ctx, *Reporter), ids ...string) func(*Ctx, *Reporter) {
 		for _, o := range tmp.Obls {
 			for _, id := range ids {
 				if o.Rule == r.Property+"/"+id {
+					r.Rule(id, 1)
+					r.add(o.Status, o.Construct, o.Pos, o.Detail, o.Path)
+				}
+			}
+		}
+	}
+}
+
+// subRulesConstruct runs a rule function and keeps only the obligations whose construct equals one of the given names.
+func subRulesConstruct(fn func(*Ctx, *Reporter), constructs ...string) func(*Ctx, *Reporter) {
+	return func(c *Ctx, r *Reporter) {
+		tmp := NewReporter(r.Property)
+		fn(c, tmp)
+		for _, o := range tmp.Obls {
+			for _, cn := range constructs {
+				if o.Construct == cn {
+					id := strings.TrimPrefix(o.Rule, r.Property+"/")
 					r.Rule(id, 1)
 					r.add(o.Status, o.Construct, o.Pos, o.Detail, o.Path)
 				}
